@@ -2,6 +2,7 @@ import PoolProofs.C15LemmasInst
 import PoolProofs.C15LemmasStr
 import PoolProofs.C15LemmasB58
 import PoolProofs.C10
+import PoolModel.Generated.C19State
 /-! # C15 — sidecar ticket encodings round-trip and reject damaged strings
 
 Theorems about the model of sidecar/tlv.go and sidecar/codec.go (`Pool.Dec`).  SHA-256 is an arbitrary
@@ -68,6 +69,18 @@ theorem C15_record_tables_match_source :
     Pool.Gen.C15.deserializeOrderKinds = ["prim", "static:64:ESig:DSig"] ∧
     Pool.Gen.C15.deserializeExecutionKinds = ["prim"] ∧
     Pool.Gen.C15.checksumLen = 4 ∧ prefixBytes.length = 7 ∧ encVersion = [0] := by decide
+
+/-- (regenerated fact) The model treats `EncodeToString`, `SerializeTicket`, `DecodeString`,
+`DeserializeTicket` as functions of their argument.  In the source, the intra-package call graph of these
+four functions (incl. the encoders / decoders passed as values) mentions exactly two package-level
+variables – the constants `encodingVersion` and `ZeroSignature` – and writes none: no pooled buffer, cache
+or other shared mutable state that would make the result depend on other calls (sequential or concurrent). -/
+theorem C15_codec_touches_no_mutable_state :
+    Pool.Gen.C19.sidecarCodecVars = ["ZeroSignature : [64]byte", "encodingVersion : []byte"] ∧
+    Pool.Gen.C19.parserStateWrites = [] ∧
+    (∀ f ∈ ["EncodeToString", "SerializeTicket", "DecodeString", "DeserializeTicket", "serializeOffer",
+             "serializeRecipient", "serializeOrder", "serializeExecution", "encodeBytes", "ESig", "EBytes8"],
+        f ∈ Pool.Gen.C19.sidecarCodecCallGraph) := by decide
 
 /-! ## string form -/
 
